@@ -22,6 +22,14 @@ Theorem C01_dust_recipient_unique : forall (a b : requests),
 Proof. exact dust_winner_perm. Qed.
 Print Assumptions C01_dust_recipient_unique.
 
+(* (1b) the staking list: stakes are collected from a Go map and sorted; since the repair equal stakes
+   are ordered by address, so the sorted list — whose positions become the payout txids and decide
+   the dust recipient — is the same for every enumeration of the map *)
+Theorem C01_staking_order_independent : forall (a b : list (addr * Z)),
+  Permutation.Permutation a b -> List.NoDup (map fst a) -> sort_stakes a = sort_stakes b.
+Proof. exact sort_stakes_order_independent. Qed.
+Print Assumptions C01_staking_order_independent.
+
 (* (2) the source has no other iteration over a map, and no other sort, in the code reachable from
    block application than the ones reviewed (regenerated from /repo on every run) *)
 Theorem C01_no_unreviewed_map_iteration : forallb (fun k => mem2 k expected_map_ranges) map_range_keys = true.
